@@ -67,8 +67,8 @@ class Parser:
         self.tokens = tokens
         self.builtins = builtins
         self.pos = 0
-        assert tokens
-        grammar = tokens[-1].grammar
+        # An empty grammar (or one with nothing but comments) has no tokens.
+        grammar = tokens[-1].grammar if tokens else ""
         self.eof = Token(TokenKind.EOI, "", len(grammar), grammar)
 
     def current(self) -> Token:
